@@ -12,6 +12,7 @@ import Driver.RawBytes
 import Driver.Conc
 import Driver.Supervise
 import Driver.UdpNet
+import Driver.UringSend
 
 def main (args : List String) : IO UInt32 := do
   match args with
@@ -29,6 +30,7 @@ def main (args : List String) : IO UInt32 := do
   | ["conc"] => ConcDrv.main; return 0
   | ["supervise"] => SuperviseDrv.main; return 0
   | ["udpnet"] => UdpNetDrv.main; return 0
+  | ["uringsend"] => UringSendDrv.main; return 0
   | _ =>
     IO.eprintln "usage: driver <family>   (lines on stdin)"
     return 2
